@@ -42,7 +42,14 @@ func execUnionExprUnion(context *exprContext, expr *grammar.Grammar) error {
 		return fmt.Errorf("cannot union non-NodeSet's")
 	}
 
-	context.result = unionCleanup(append(leftNodeSet, rightNodeSet...))
+	// The operands may be node-sets owned by the caller (variables, function
+	// results); merge them into a new slice instead of appending to and sorting
+	// the left operand in place.
+	merged := make(NodeSet, 0, len(leftNodeSet)+len(rightNodeSet))
+	merged = append(merged, leftNodeSet...)
+	merged = append(merged, rightNodeSet...)
+
+	context.result = unionCleanup(merged)
 	return nil
 }
 
